@@ -309,6 +309,8 @@ class Fn:
             return ("u", v[2]) if v and v[0] in ("arr", "carr") else None
         if k == "mcall":
             return self.typed(e[1])
+        if k == "tuple" or k == "array":
+            return None
         if k == "call":
             if e[1] in self.u.fns:
                 return self.u.fn(e[1]).ret
@@ -400,6 +402,8 @@ class Fn:
             if m in ("wrapping_add", "wrapping_sub", "wrapping_mul"):
                 r, _ = self.expr(args[0], lt)
                 return "(%s %s %s)" % (l, {"wrapping_add": "+", "wrapping_sub": "-", "wrapping_mul": "*"}[m], r), lt
+            if m == "to_bits":
+                return l, lt                          # floats are their bit patterns
             if m in ("rotate_left", "rotate_right"):
                 return "((%s).%s %s)" % (l, {"rotate_left": "rotateLeft", "rotate_right": "rotateRight"}[m], self.nat(args[0])), lt
             raise TranslateError("unsupported method %s" % m)
@@ -586,7 +590,8 @@ class Unit:
 UNITS = [("Urandom.Generated.Scalar.splitmix", "src/rng/splitmix64.rs", ["mix64", "next", "jump"]),
          ("Urandom.Generated.Scalar.wyrand", "src/rng/wyrand.rs", ["rapid_mum", "rapid_mix", "wyrand", "jump"]),
          ("Urandom.Generated.Scalar.xoshiro", "src/rng/xoshiro256.rs", ["advance", "next_plusplus", "next_plus", "jump"]),
-         ("Urandom.Generated.Scalar.util", "src/rng/util.rs", ["rng_f32", "rng_f64"])]
+         ("Urandom.Generated.Scalar.util", "src/rng/util.rs", ["rng_f32", "rng_f64"]),
+         ("Urandom.Generated.Scalar.float01", "src/distr/float01.rs", ["replace_exponent_f32", "replace_exponent_f64"])]
 
 
 def generate(repo, out_dir, write):
